@@ -114,7 +114,9 @@ def kind_ok(value, announced):
     if isinstance(announced, type) and issubclass(announced, bqtypes.Structure):
         for py, st in bqtypes.ALIASES.items():
             if st is announced:
-                return isinstance(value, py)
+                # the structure class only DESCRIBES the attributes of the python type: a column of such values
+                # announces the python type itself, of which the values are instances (the description class is not)
+                return isinstance(value, announced)
         return True      # Open / Close structures: namedtuple rows, no python alias registered
     try:
         return isinstance(value, announced)
